@@ -1,11 +1,11 @@
 ------------------------------ MODULE Gen_Ext ------------------------------
 EXTENDS External
-CONSTANTS NClasses, Homes, Nla, ZeroK, MaxMarks, WithDeps, MaxDeps
+CONSTANTS NClasses, Homes, Nla, ZeroK, MaxMarks, WithDeps, MaxDeps, OnlyFaulty    \* OnlyFaulty: only the underconstrained systems
 VARIABLE sc
 NoFault == [kind |-> NoneS, name |-> NoneS]
 ConstFaults(s) == {f \in Faults(s) : f.kind \in {NoneS, "constNoInit"}}
 Bases == UNION {UNION {{[classes |-> s.classes, nla |-> k, fault |-> f] : f \in (IF k = NoneS THEN ConstFaults(s) ELSE {NoFault})} : k \in Nla} : s \in SystemsD(NClasses, Homes, ZeroK, MaxDeps)}
-Init == sc \in UNION {{x \in {WithMarks(b, ms, 0) : ms \in MarkSets(b, MaxMarks, WithDeps)} : Admissible(x)} : b \in Bases}
+Init == sc \in UNION {{x \in {WithMarks(b, ms, 0) : ms \in MarkSets(b, MaxMarks, WithDeps)} : Admissible(x)} : b \in {y \in Bases : OnlyFaulty => y.fault.kind # NoneS}}
 Next == UNCHANGED sc
 Spec == Init /\ [][Next]_sc
 Emit == EmitScenario([sys |-> sc, run |-> TRUE, ext |-> TRUE, expect |-> ExpectOf(sc)])
